@@ -42,12 +42,12 @@ var witnesses = []witness{
 		query:    "SELECT id, SUM(v) OVER (), AVG(v) OVER () FROM t",
 		defined:  [][]string{{"n:1", "N", "N"}},
 		observed: [][]string{{"n:1", "f:0", "f:NaN"}}},
-	{id: "C08-window-expr-dedup",
+	{id: "C08-ntile-argument-dedup",
 		setup:    []string{wt, "INSERT INTO t VALUES (1,1,1,10,'a'),(2,1,2,20,'a')"},
 		query:    "SELECT id, NTILE(1) OVER (ORDER BY id), NTILE(2) OVER (ORDER BY id) FROM t",
 		defined:  [][]string{{"n:1", "n:1", "n:1"}, {"n:2", "n:1", "n:2"}},
 		observed: [][]string{{"n:1", "n:1", "n:1"}, {"n:2", "n:1", "n:1"}}},
-	{id: "C08-window-expr-dedup",
+	{id: "C08-frame-end-dedup",
 		setup:    []string{wt, "INSERT INTO t VALUES (1,1,1,10,'a'),(2,1,2,20,'a')"},
 		query:    "SELECT id, FIRST_VALUE(v) OVER (ORDER BY id ROWS BETWEEN UNBOUNDED PRECEDING AND 1 PRECEDING), FIRST_VALUE(v) OVER (ORDER BY id ROWS BETWEEN UNBOUNDED PRECEDING AND CURRENT ROW) FROM t",
 		defined:  [][]string{{"n:1", "N", "n:10"}, {"n:2", "n:10", "n:10"}},
